@@ -368,80 +368,88 @@ func ExtractFunctions(astNode *ast.AST) []string {
 	return collector.toSlice()
 }
 
-// tableCollector collects table names from AST nodes
-type tableCollector struct {
-	tables map[string]bool
+// nodeWalker visits every node of a statement through Children(), once per node.
+//
+// The parser shares the sub-query of a derived table between SelectStatement.From and the
+// Left side of the first JoinClause, so a statement reached a second time is skipped:
+// the traversal stays linear in the size of the tree for any nesting of derived tables,
+// CTEs and set operations.
+type nodeWalker struct {
+	seen map[*ast.SelectStatement]bool
 }
 
-func (tc *tableCollector) collectFromNode(node ast.Node) {
+// walk calls visit for node and for every node below it, in pre-order.
+func (w *nodeWalker) walk(node ast.Node, visit func(ast.Node)) {
 	if node == nil {
 		return
+	}
+	if sel, ok := node.(*ast.SelectStatement); ok && sel != nil {
+		if w.seen[sel] {
+			return
+		}
+		if w.seen == nil {
+			w.seen = make(map[*ast.SelectStatement]bool)
+		}
+		w.seen[sel] = true
+	}
+
+	visit(node)
+
+	for _, child := range node.Children() {
+		w.walk(child, visit)
+	}
+}
+
+// tableNames returns the names written in table positions of the node itself:
+// FROM lists, the joined table of each JOIN, INSERT/UPDATE/DELETE targets and USING lists.
+// Nested statements (WITH, CTE bodies, set operations, INSERT ... SELECT, derived tables,
+// sub-queries) are nodes of their own and are reached by the traversal.
+// JoinClause.Left is never read: for the second and later joins the parser stores a
+// synthetic name there.
+func tableNames(node ast.Node) []string {
+	var names []string
+	add := func(name string) {
+		if name != "" {
+			names = append(names, name)
+		}
 	}
 
 	switch n := node.(type) {
 	case *ast.SelectStatement:
 		for _, from := range n.From {
-			if from.Name != "" {
-				tc.tables[from.Name] = true
-			}
+			add(from.Name)
 		}
 		for _, join := range n.Joins {
-			if join.Right.Name != "" {
-				tc.tables[join.Right.Name] = true
-			}
-		}
-		if n.With != nil {
-			tc.collectFromNode(n.With)
+			add(join.Right.Name)
 		}
 	case *ast.InsertStatement:
-		if n.TableName != "" {
-			tc.tables[n.TableName] = true
-		}
-		if n.Query != nil {
-			tc.collectFromNode(n.Query)
-		}
-		if n.With != nil {
-			tc.collectFromNode(n.With)
-		}
+		add(n.TableName)
 	case *ast.UpdateStatement:
-		if n.TableName != "" {
-			tc.tables[n.TableName] = true
-		}
+		add(n.TableName)
 		for _, from := range n.From {
-			if from.Name != "" {
-				tc.tables[from.Name] = true
-			}
-		}
-		if n.With != nil {
-			tc.collectFromNode(n.With)
+			add(from.Name)
 		}
 	case *ast.DeleteStatement:
-		if n.TableName != "" {
-			tc.tables[n.TableName] = true
-		}
+		add(n.TableName)
 		for _, using := range n.Using {
-			if using.Name != "" {
-				tc.tables[using.Name] = true
-			}
+			add(using.Name)
 		}
-		if n.With != nil {
-			tc.collectFromNode(n.With)
-		}
-	case *ast.WithClause:
-		for _, cte := range n.CTEs {
-			tc.collectFromNode(cte)
-		}
-	case *ast.CommonTableExpr:
-		tc.collectFromNode(n.Statement)
-	case *ast.SetOperation:
-		tc.collectFromNode(n.Left)
-		tc.collectFromNode(n.Right)
 	}
+	return names
+}
 
-	// Recursively collect from children
-	for _, child := range node.Children() {
-		tc.collectFromNode(child)
-	}
+// tableCollector collects table names from AST nodes
+type tableCollector struct {
+	nodeWalker
+	tables map[string]bool
+}
+
+func (tc *tableCollector) collectFromNode(node ast.Node) {
+	tc.walk(node, func(n ast.Node) {
+		for _, name := range tableNames(n) {
+			tc.tables[name] = true
+		}
+	})
 }
 
 func (tc *tableCollector) toSlice() []string {
@@ -454,82 +462,19 @@ func (tc *tableCollector) toSlice() []string {
 
 // qualifiedTableCollector collects qualified table names
 type qualifiedTableCollector struct {
+	nodeWalker
 	tables map[string]QualifiedName
 }
 
 func (qtc *qualifiedTableCollector) collectFromNode(node ast.Node) {
-	if node == nil {
-		return
-	}
-
-	switch n := node.(type) {
-	case *ast.SelectStatement:
-		for _, from := range n.From {
-			if from.Name != "" {
-				qtc.addTable(from.Name)
-			}
+	qtc.walk(node, func(n ast.Node) {
+		for _, name := range tableNames(n) {
+			qtc.addTable(name)
 		}
-		for _, join := range n.Joins {
-			if join.Right.Name != "" {
-				qtc.addTable(join.Right.Name)
-			}
-		}
-		if n.With != nil {
-			qtc.collectFromNode(n.With)
-		}
-	case *ast.InsertStatement:
-		if n.TableName != "" {
-			qtc.addTable(n.TableName)
-		}
-		if n.Query != nil {
-			qtc.collectFromNode(n.Query)
-		}
-		if n.With != nil {
-			qtc.collectFromNode(n.With)
-		}
-	case *ast.UpdateStatement:
-		if n.TableName != "" {
-			qtc.addTable(n.TableName)
-		}
-		for _, from := range n.From {
-			if from.Name != "" {
-				qtc.addTable(from.Name)
-			}
-		}
-		if n.With != nil {
-			qtc.collectFromNode(n.With)
-		}
-	case *ast.DeleteStatement:
-		if n.TableName != "" {
-			qtc.addTable(n.TableName)
-		}
-		for _, using := range n.Using {
-			if using.Name != "" {
-				qtc.addTable(using.Name)
-			}
-		}
-		if n.With != nil {
-			qtc.collectFromNode(n.With)
-		}
-	case *ast.WithClause:
-		for _, cte := range n.CTEs {
-			qtc.collectFromNode(cte)
-		}
-	case *ast.CommonTableExpr:
-		qtc.collectFromNode(n.Statement)
-	case *ast.SetOperation:
-		qtc.collectFromNode(n.Left)
-		qtc.collectFromNode(n.Right)
-	}
-
-	// Recursively collect from children
-	for _, child := range node.Children() {
-		qtc.collectFromNode(child)
-	}
+	})
 }
 
 func (qtc *qualifiedTableCollector) addTable(name string) {
-	// Parse the table name to extract schema if present
 	parts := strings.Split(name, ".")
 	var qn QualifiedName
 
@@ -557,151 +502,22 @@ func (qtc *qualifiedTableCollector) toSlice() []QualifiedName {
 
 // columnCollector collects column names from AST nodes
 type columnCollector struct {
+	nodeWalker
 	columns map[string]bool
 }
 
+// collectFromNode records every column reference below node. A column reference is an
+// Identifier node other than "*"; the traversal reaches it wherever it is written
+// (select list, WHERE, GROUP BY, HAVING, ORDER BY, JOIN conditions, function arguments,
+// CASE, IN, BETWEEN, assignments, sub-queries, ...).
 func (cc *columnCollector) collectFromNode(node ast.Node) {
-	if node == nil {
-		return
-	}
-
-	switch n := node.(type) {
-	case *ast.Identifier:
-		if n.Name != "" && n.Name != "*" {
-			cc.columns[n.Name] = true
-		}
-	case *ast.SelectStatement:
-		for _, col := range n.Columns {
-			cc.collectFromExpression(col)
-		}
-		if n.Where != nil {
-			cc.collectFromExpression(n.Where)
-		}
-		for _, gb := range n.GroupBy {
-			cc.collectFromExpression(gb)
-		}
-		if n.Having != nil {
-			cc.collectFromExpression(n.Having)
-		}
-		for _, ob := range n.OrderBy {
-			if ob.Expression != nil {
-				cc.collectFromExpression(ob.Expression)
+	cc.walk(node, func(n ast.Node) {
+		if id, ok := n.(*ast.Identifier); ok && id != nil {
+			if id.Name != "" && id.Name != "*" {
+				cc.columns[id.Name] = true
 			}
 		}
-		if n.With != nil {
-			cc.collectFromNode(n.With)
-		}
-	case *ast.InsertStatement:
-		for _, col := range n.Columns {
-			cc.collectFromExpression(col)
-		}
-		if n.Query != nil {
-			cc.collectFromNode(n.Query)
-		}
-		if n.With != nil {
-			cc.collectFromNode(n.With)
-		}
-	case *ast.UpdateStatement:
-		for _, assignment := range n.Assignments {
-			assignment := assignment // G601: Create local copy to avoid memory aliasing
-			cc.collectFromNode(&assignment)
-		}
-		if n.Where != nil {
-			cc.collectFromExpression(n.Where)
-		}
-		if n.With != nil {
-			cc.collectFromNode(n.With)
-		}
-	case *ast.DeleteStatement:
-		if n.Where != nil {
-			cc.collectFromExpression(n.Where)
-		}
-		if n.With != nil {
-			cc.collectFromNode(n.With)
-		}
-	case *ast.UpdateExpression:
-		cc.collectFromExpression(n.Column)
-		cc.collectFromExpression(n.Value)
-	case *ast.WithClause:
-		for _, cte := range n.CTEs {
-			cc.collectFromNode(cte)
-		}
-	case *ast.CommonTableExpr:
-		cc.collectFromNode(n.Statement)
-	case *ast.SetOperation:
-		cc.collectFromNode(n.Left)
-		cc.collectFromNode(n.Right)
-	}
-
-	// Recursively collect from children
-	for _, child := range node.Children() {
-		cc.collectFromNode(child)
-	}
-}
-
-func (cc *columnCollector) collectFromExpression(expr ast.Expression) {
-	if expr == nil {
-		return
-	}
-
-	switch e := expr.(type) {
-	case *ast.Identifier:
-		if e.Name != "" && e.Name != "*" {
-			cc.columns[e.Name] = true
-		}
-	case *ast.BinaryExpression:
-		cc.collectFromExpression(e.Left)
-		cc.collectFromExpression(e.Right)
-	case *ast.FunctionCall:
-		for _, arg := range e.Arguments {
-			cc.collectFromExpression(arg)
-		}
-		if e.Filter != nil {
-			cc.collectFromExpression(e.Filter)
-		}
-	case *ast.UnaryExpression:
-		cc.collectFromExpression(e.Expr)
-	case *ast.InExpression:
-		cc.collectFromExpression(e.Expr)
-		for _, item := range e.List {
-			cc.collectFromExpression(item)
-		}
-	case *ast.BetweenExpression:
-		cc.collectFromExpression(e.Expr)
-		cc.collectFromExpression(e.Lower)
-		cc.collectFromExpression(e.Upper)
-	case *ast.CaseExpression:
-		if e.Value != nil {
-			cc.collectFromExpression(e.Value)
-		}
-		for _, when := range e.WhenClauses {
-			cc.collectFromExpression(when.Condition)
-			cc.collectFromExpression(when.Result)
-		}
-		if e.ElseClause != nil {
-			cc.collectFromExpression(e.ElseClause)
-		}
-	case *ast.CastExpression:
-		cc.collectFromExpression(e.Expr)
-	case *ast.SubstringExpression:
-		cc.collectFromExpression(e.Str)
-		cc.collectFromExpression(e.Start)
-		if e.Length != nil {
-			cc.collectFromExpression(e.Length)
-		}
-	case *ast.ExtractExpression:
-		cc.collectFromExpression(e.Source)
-	case *ast.PositionExpression:
-		cc.collectFromExpression(e.Substr)
-		cc.collectFromExpression(e.Str)
-	case *ast.ListExpression:
-		for _, v := range e.Values {
-			cc.collectFromExpression(v)
-		}
-	case *ast.AliasedExpression:
-		// Unwrap the aliased expression and collect from inner expression
-		cc.collectFromExpression(e.Expr)
-	}
+	})
 }
 
 func (cc *columnCollector) toSlice() []string {
@@ -714,155 +530,21 @@ func (cc *columnCollector) toSlice() []string {
 
 // qualifiedColumnCollector collects qualified column names from AST nodes
 type qualifiedColumnCollector struct {
+	nodeWalker
 	columns map[string]QualifiedName
 }
 
 func (qcc *qualifiedColumnCollector) collectFromNode(node ast.Node) {
-	if node == nil {
-		return
-	}
-
-	switch n := node.(type) {
-	case *ast.Identifier:
-		if n.Name != "" && n.Name != "*" {
-			qcc.addColumn(n.Table, n.Name)
-		}
-	case *ast.SelectStatement:
-		for _, col := range n.Columns {
-			qcc.collectFromExpression(col)
-		}
-		if n.Where != nil {
-			qcc.collectFromExpression(n.Where)
-		}
-		for _, gb := range n.GroupBy {
-			qcc.collectFromExpression(gb)
-		}
-		if n.Having != nil {
-			qcc.collectFromExpression(n.Having)
-		}
-		for _, ob := range n.OrderBy {
-			if ob.Expression != nil {
-				qcc.collectFromExpression(ob.Expression)
+	qcc.walk(node, func(n ast.Node) {
+		if id, ok := n.(*ast.Identifier); ok && id != nil {
+			if id.Name != "" && id.Name != "*" {
+				qcc.addColumn(id.Table, id.Name)
 			}
 		}
-		if n.With != nil {
-			qcc.collectFromNode(n.With)
-		}
-	case *ast.InsertStatement:
-		for _, col := range n.Columns {
-			qcc.collectFromExpression(col)
-		}
-		if n.Query != nil {
-			qcc.collectFromNode(n.Query)
-		}
-		if n.With != nil {
-			qcc.collectFromNode(n.With)
-		}
-	case *ast.UpdateStatement:
-		for _, assignment := range n.Assignments {
-			assignment := assignment // G601: Create local copy to avoid memory aliasing
-			qcc.collectFromNode(&assignment)
-		}
-		if n.Where != nil {
-			qcc.collectFromExpression(n.Where)
-		}
-		if n.With != nil {
-			qcc.collectFromNode(n.With)
-		}
-	case *ast.DeleteStatement:
-		if n.Where != nil {
-			qcc.collectFromExpression(n.Where)
-		}
-		if n.With != nil {
-			qcc.collectFromNode(n.With)
-		}
-	case *ast.UpdateExpression:
-		qcc.collectFromExpression(n.Column)
-		qcc.collectFromExpression(n.Value)
-	case *ast.WithClause:
-		for _, cte := range n.CTEs {
-			qcc.collectFromNode(cte)
-		}
-	case *ast.CommonTableExpr:
-		qcc.collectFromNode(n.Statement)
-	case *ast.SetOperation:
-		qcc.collectFromNode(n.Left)
-		qcc.collectFromNode(n.Right)
-	}
-
-	// Recursively collect from children
-	for _, child := range node.Children() {
-		qcc.collectFromNode(child)
-	}
-}
-
-func (qcc *qualifiedColumnCollector) collectFromExpression(expr ast.Expression) {
-	if expr == nil {
-		return
-	}
-
-	switch e := expr.(type) {
-	case *ast.Identifier:
-		if e.Name != "" && e.Name != "*" {
-			qcc.addColumn(e.Table, e.Name)
-		}
-	case *ast.BinaryExpression:
-		qcc.collectFromExpression(e.Left)
-		qcc.collectFromExpression(e.Right)
-	case *ast.FunctionCall:
-		for _, arg := range e.Arguments {
-			qcc.collectFromExpression(arg)
-		}
-		if e.Filter != nil {
-			qcc.collectFromExpression(e.Filter)
-		}
-	case *ast.UnaryExpression:
-		qcc.collectFromExpression(e.Expr)
-	case *ast.InExpression:
-		qcc.collectFromExpression(e.Expr)
-		for _, item := range e.List {
-			qcc.collectFromExpression(item)
-		}
-	case *ast.BetweenExpression:
-		qcc.collectFromExpression(e.Expr)
-		qcc.collectFromExpression(e.Lower)
-		qcc.collectFromExpression(e.Upper)
-	case *ast.CaseExpression:
-		if e.Value != nil {
-			qcc.collectFromExpression(e.Value)
-		}
-		for _, when := range e.WhenClauses {
-			qcc.collectFromExpression(when.Condition)
-			qcc.collectFromExpression(when.Result)
-		}
-		if e.ElseClause != nil {
-			qcc.collectFromExpression(e.ElseClause)
-		}
-	case *ast.CastExpression:
-		qcc.collectFromExpression(e.Expr)
-	case *ast.SubstringExpression:
-		qcc.collectFromExpression(e.Str)
-		qcc.collectFromExpression(e.Start)
-		if e.Length != nil {
-			qcc.collectFromExpression(e.Length)
-		}
-	case *ast.ExtractExpression:
-		qcc.collectFromExpression(e.Source)
-	case *ast.PositionExpression:
-		qcc.collectFromExpression(e.Substr)
-		qcc.collectFromExpression(e.Str)
-	case *ast.ListExpression:
-		for _, v := range e.Values {
-			qcc.collectFromExpression(v)
-		}
-	case *ast.AliasedExpression:
-		// Unwrap the aliased expression and collect from inner expression
-		qcc.collectFromExpression(e.Expr)
-	}
+	})
 }
 
 func (qcc *qualifiedColumnCollector) addColumn(table, name string) {
-	// Parse qualified column name (table.column)
 	var qn QualifiedName
 	if table != "" {
 		qn = QualifiedName{Table: table, Name: name}
@@ -882,147 +564,20 @@ func (qcc *qualifiedColumnCollector) toSlice() []QualifiedName {
 
 // functionCollector collects function names from AST nodes
 type functionCollector struct {
+	nodeWalker
 	functions map[string]bool
 }
 
+// collectFromNode records the name of every FunctionCall node below node, wherever the
+// call is written (including JOIN conditions, MERGE actions and sub-queries).
 func (fc *functionCollector) collectFromNode(node ast.Node) {
-	if node == nil {
-		return
-	}
-
-	switch n := node.(type) {
-	case *ast.SelectStatement:
-		for _, col := range n.Columns {
-			fc.collectFromExpression(col)
-		}
-		if n.Where != nil {
-			fc.collectFromExpression(n.Where)
-		}
-		for _, gb := range n.GroupBy {
-			fc.collectFromExpression(gb)
-		}
-		if n.Having != nil {
-			fc.collectFromExpression(n.Having)
-		}
-		for _, ob := range n.OrderBy {
-			if ob.Expression != nil {
-				fc.collectFromExpression(ob.Expression)
+	fc.walk(node, func(n ast.Node) {
+		if call, ok := n.(*ast.FunctionCall); ok && call != nil {
+			if call.Name != "" {
+				fc.functions[call.Name] = true
 			}
 		}
-		if n.With != nil {
-			fc.collectFromNode(n.With)
-		}
-	case *ast.InsertStatement:
-		for _, row := range n.Values {
-			for _, val := range row {
-				fc.collectFromExpression(val)
-			}
-		}
-		if n.Query != nil {
-			fc.collectFromNode(n.Query)
-		}
-		if n.With != nil {
-			fc.collectFromNode(n.With)
-		}
-	case *ast.UpdateStatement:
-		for _, assignment := range n.Assignments {
-			assignment := assignment // G601: Create local copy to avoid memory aliasing
-			fc.collectFromNode(&assignment)
-		}
-		if n.Where != nil {
-			fc.collectFromExpression(n.Where)
-		}
-		if n.With != nil {
-			fc.collectFromNode(n.With)
-		}
-	case *ast.DeleteStatement:
-		if n.Where != nil {
-			fc.collectFromExpression(n.Where)
-		}
-		if n.With != nil {
-			fc.collectFromNode(n.With)
-		}
-	case *ast.UpdateExpression:
-		fc.collectFromExpression(n.Value)
-	case *ast.WithClause:
-		for _, cte := range n.CTEs {
-			fc.collectFromNode(cte)
-		}
-	case *ast.CommonTableExpr:
-		fc.collectFromNode(n.Statement)
-	case *ast.SetOperation:
-		fc.collectFromNode(n.Left)
-		fc.collectFromNode(n.Right)
-	}
-
-	// Recursively collect from children
-	for _, child := range node.Children() {
-		fc.collectFromNode(child)
-	}
-}
-
-func (fc *functionCollector) collectFromExpression(expr ast.Expression) {
-	if expr == nil {
-		return
-	}
-
-	switch e := expr.(type) {
-	case *ast.FunctionCall:
-		if e.Name != "" {
-			fc.functions[e.Name] = true
-		}
-		for _, arg := range e.Arguments {
-			fc.collectFromExpression(arg)
-		}
-		if e.Filter != nil {
-			fc.collectFromExpression(e.Filter)
-		}
-	case *ast.BinaryExpression:
-		fc.collectFromExpression(e.Left)
-		fc.collectFromExpression(e.Right)
-	case *ast.UnaryExpression:
-		fc.collectFromExpression(e.Expr)
-	case *ast.InExpression:
-		fc.collectFromExpression(e.Expr)
-		for _, item := range e.List {
-			fc.collectFromExpression(item)
-		}
-	case *ast.BetweenExpression:
-		fc.collectFromExpression(e.Expr)
-		fc.collectFromExpression(e.Lower)
-		fc.collectFromExpression(e.Upper)
-	case *ast.CaseExpression:
-		if e.Value != nil {
-			fc.collectFromExpression(e.Value)
-		}
-		for _, when := range e.WhenClauses {
-			fc.collectFromExpression(when.Condition)
-			fc.collectFromExpression(when.Result)
-		}
-		if e.ElseClause != nil {
-			fc.collectFromExpression(e.ElseClause)
-		}
-	case *ast.CastExpression:
-		fc.collectFromExpression(e.Expr)
-	case *ast.SubstringExpression:
-		fc.collectFromExpression(e.Str)
-		fc.collectFromExpression(e.Start)
-		if e.Length != nil {
-			fc.collectFromExpression(e.Length)
-		}
-	case *ast.ExtractExpression:
-		fc.collectFromExpression(e.Source)
-	case *ast.PositionExpression:
-		fc.collectFromExpression(e.Substr)
-		fc.collectFromExpression(e.Str)
-	case *ast.ListExpression:
-		for _, v := range e.Values {
-			fc.collectFromExpression(v)
-		}
-	case *ast.AliasedExpression:
-		// Unwrap the aliased expression and collect from inner expression
-		fc.collectFromExpression(e.Expr)
-	}
+	})
 }
 
 func (fc *functionCollector) toSlice() []string {
